@@ -2,6 +2,7 @@ package props
 
 import (
 	"fmt"
+	"github.com/llir/llvm/asm"
 	"io"
 	"math/rand"
 	"regexp"
@@ -22,7 +23,7 @@ func init() {
 	fw.Register(&fw.Check{
 		ID:    "C14",
 		Level: "exploration",
-		Rule: "edit histories over the public API (add global/function/block, append/insert/remove instruction, set/replace terminator, rename, add metadata, functions/globals/calls over a shared literal struct type and the step that names or renames that type; 6-40 steps, PRNG) are replayed on fresh modules: once alone (reference) and once per observer placement (every position x every observer kind for histories of <=10 steps, PRNG subsets of positions and observers for longer ones; observers: Module.String, WriteTo, Func.LLString, Block.LLString, inst.LLString, Type, Ident, String, Operands, Succs, AssignIDs). The final String() must equal the reference, no observer may make a later step or print panic, two consecutive prints must agree. " +
+		Rule: "edit histories over the public API (add global/function/block, append/insert/remove instruction, set/replace terminator, rename, add metadata, functions/globals/calls over a shared literal struct type and the step that names or renames that type, replacing the callee of a call, declaring a global and giving it an initializer later, putting a metadata definition in front of the others; 6-40 steps, PRNG) are replayed on fresh modules: once alone (reference) and once per observer placement (every position x every observer kind for histories of <=10 steps, PRNG subsets of positions and observers for longer ones; observers: Module.String, WriteTo, Func.LLString, Block.LLString, inst.LLString, Type, Ident, String, Operands, Succs, AssignIDs). The final String() must equal the reference, no observer may make a later step or print panic, two consecutive prints must agree. " +
 			"non-trivial = a replay with at least one observer followed by at least one edit; distinct by (history, placement). " +
 			"Histories that shift the numbering of already numbered unnamed values (insert/remove/rename before numbered values after an observer) are part of the PRNG composer and are also run as eight dedicated minimal witness histories",
 		Gen:           genC14,
@@ -62,6 +63,8 @@ type hstate struct {
 	// "typedef" step gives it a name (or renames it) later on
 	pair      *types.StructType
 	pairFuncs []*ir.Func
+	pairCalls []*ir.InstCall
+	decls     []*ir.Global // globals created as declarations (some are given an initializer later)
 }
 
 func (h *hstate) pairType() *types.StructType {
@@ -263,6 +266,28 @@ func (h *hstate) apply(s hstep) {
 			return
 		}
 		cands[s.I%len(cands)].SetName(s.Name)
+	case "parse":
+		// the history starts from a parsed module instead of an empty one (what the
+		// parser attaches to its objects - types, signatures - is then part of
+		// the state the observers and edits work on)
+		pm, err := asm.ParseString("c14", c14Template)
+		if err != nil {
+			panic(err)
+		}
+		h.m = pm
+		for _, f := range pm.Funcs {
+			if strings.HasPrefix(f.GlobalName, "pf") {
+				h.pairFuncs = append(h.pairFuncs, f)
+				h.pair = f.Params[0].Typ.(*types.StructType)
+			}
+			for _, b := range f.Blocks {
+				for _, inst := range b.Insts {
+					if c, ok := inst.(*ir.InstCall); ok {
+						h.pairCalls = append(h.pairCalls, c)
+					}
+				}
+			}
+		}
 	case "pairfunc":
 		// a function whose signature mentions the shared struct type, variadic or not
 		f := m.NewFunc(s.Name, types.I32, ir.NewParam("a", h.pairType()), ir.NewParam("q", types.NewPointer(h.pairType())))
@@ -286,6 +311,22 @@ func (h *hstate) apply(s hstep) {
 		call := ir.NewCall(callee, constant.NewUndef(h.pairType()), constant.NewNull(types.NewPointer(h.pairType())))
 		call.SetName(s.Name)
 		b.Insts = append(b.Insts, call)
+		h.pairCalls = append(h.pairCalls, call)
+	case "swapcallee":
+		// the callee of an existing call is replaced by another function of the
+		// same parameter types (variadic or not)
+		if len(h.pairCalls) == 0 || len(h.pairFuncs) == 0 {
+			return
+		}
+		h.pairCalls[s.I%len(h.pairCalls)].Callee = h.pairFuncs[s.C%len(h.pairFuncs)]
+	case "gdecl":
+		h.decls = append(h.decls, m.NewGlobal(s.Name, types.I32))
+	case "ginit":
+		// a declaration is completed into a definition
+		if len(h.decls) == 0 {
+			return
+		}
+		h.decls[s.I%len(h.decls)].Init = constant.NewInt(types.I32, int64(s.N))
 	case "typedef":
 		if h.pairType().Name() == "" {
 			m.NewTypeDef(s.Name, h.pairType())
@@ -417,6 +458,23 @@ func obsValue(v value.Value, kind int) {
 	}
 }
 
+const c14Template = `define i32 @pf1({ i32, i32 } %a, { i32, i32 }* %q) {
+entry:
+  ret i32 0
+}
+define i32 @pf2({ i32, i32 } %a, { i32, i32 }* %q, ...) {
+entry:
+  ret i32 1
+}
+define i32 @user(i32 %x) {
+entry:
+  %c1 = call i32 @pf1({ i32, i32 } undef, { i32, i32 }* null)
+  %c2 = call i32 ({ i32, i32 }, { i32, i32 }*, ...) @pf2({ i32, i32 } undef, { i32, i32 }* null)
+  %s = add i32 %c1, %c2
+  ret i32 %s
+}
+`
+
 // genHistory builds a history. fenced: numbering of already numbered unnamed
 // values is never shifted.
 func genHistory(rng *rand.Rand, n int, fenced bool) []hstep {
@@ -433,12 +491,23 @@ func genHistory(rng *rand.Rand, n int, fenced bool) []hstep {
 	type fshape struct{ blocks []int }
 	var funcs []fshape
 	unnamedFuncExists := false
-	steps = append(steps, hstep{Op: "func", Name: name(false), N: rng.Intn(4), Kind: rng.Intn(8), A: rng.Intn(2)})
-	funcs = append(funcs, fshape{blocks: []int{0}})
+	if !fenced && rng.Intn(3) == 0 {
+		steps = append(steps, hstep{Op: "parse"})
+		funcs = append(funcs, fshape{blocks: []int{0}}, fshape{blocks: []int{0}}, fshape{blocks: []int{3}})
+	} else {
+		steps = append(steps, hstep{Op: "func", Name: name(false), N: rng.Intn(4), Kind: rng.Intn(8), A: rng.Intn(2)})
+		funcs = append(funcs, fshape{blocks: []int{0}})
+	}
 	for len(steps) < n {
-		r := rng.Intn(111)
+		r := rng.Intn(116)
 		fi := rng.Intn(len(funcs))
 		switch {
+		case r >= 114:
+			steps = append(steps, hstep{Op: "ginit", I: rng.Intn(9), N: rng.Intn(100)})
+		case r >= 112:
+			steps = append(steps, hstep{Op: "gdecl", Name: name(false)})
+		case r >= 110:
+			steps = append(steps, hstep{Op: "swapcallee", I: rng.Intn(9), C: rng.Intn(9)})
 		case r >= 109:
 			steps = append(steps, hstep{Op: "mdprepend", N: rng.Intn(100)})
 		case r >= 108:
